@@ -122,7 +122,6 @@ fn run_rereg(h: &[(i32, bool)], xthread: bool, out: &mut WorkerOut) {
     use crate::gen::{relabel, trees_by_size, Kind};
     use crate::model::lex::InfixInfo;
     use expression_engine::{InfixOpAssociativity, InfixOpType};
-    use std::sync::Arc;
     let kinds: Vec<Kind> = ["xop", "*", "+", "in"].iter().map(|o| Kind::Infix(o.to_string())).collect();
     let trees = trees_by_size(&kinds, 3);
     let rot = crate::gen::leaf_rotation();
@@ -130,7 +129,9 @@ fn run_rereg(h: &[(i32, bool)], xthread: bool, out: &mut WorkerOut) {
     let tail = if xthread { " re-registrations by another thread" } else { "" };
     for (step, (prec, left)) in h.iter().enumerate() {
         let (p, l) = (*prec, *left);
-        let reg = move || expression_engine::register_infix_op("xop", p, InfixOpType::CALC, if l { InfixOpAssociativity::LEFT } else { InfixOpAssociativity::RIGHT }, Arc::new(|a, _| Ok(a)));
+        // one handler object for every registration of the history (a clone of the same Arc)
+        let hnd = super::c12::xop_handler();
+        let reg = move || expression_engine::register_infix_op("xop", p, InfixOpType::CALC, if l { InfixOpAssociativity::LEFT } else { InfixOpAssociativity::RIGHT }, hnd);
         if xthread && step > 0 {
             std::thread::spawn(reg).join().expect("registration thread");
         } else {
@@ -153,6 +154,26 @@ fn run_rereg(h: &[(i32, bool)], xthread: bool, out: &mut WorkerOut) {
         }
     }
 }
+
+/// Operators registered in a second position under the same symbol: `%` also postfix, `*` also
+/// prefix, `!` also infix, `++` also infix. Registers them and returns the matching table.
+pub fn install_dual_role() -> OpSet {
+    use crate::model::lex::InfixInfo;
+    use expression_engine::{InfixOpAssociativity, InfixOpType};
+    use std::sync::Arc;
+    let mut ops = OpSet::builtin();
+    expression_engine::register_postfix_op("%", Arc::new(|v| Ok(v)));
+    ops.postfix.insert("%".into());
+    expression_engine::register_prefix_op("*", Arc::new(|v| Ok(v)));
+    ops.prefix.insert("*".into());
+    expression_engine::register_infix_op("!", 105, InfixOpType::CALC, InfixOpAssociativity::LEFT, Arc::new(|a, _| Ok(a)));
+    ops.infix.insert("!".into(), InfixInfo { prec: 105, left: true, setter: false });
+    expression_engine::register_infix_op("++", 115, InfixOpType::CALC, InfixOpAssociativity::LEFT, Arc::new(|a, _| Ok(a)));
+    ops.infix.insert("++".into(), InfixInfo { prec: 115, left: true, setter: false });
+    ops
+}
+
+pub const DUAL_TOKENS: &[&str] = &["1", "x", "%", "*", "!", "++", "(", ")", "+", "-"];
 
 pub fn programs(tier: Tier) -> Vec<Ast> {
     program_trees(tier.pick(0, 1))
@@ -187,6 +208,13 @@ impl Prop for C02 {
                     chunk: 1,
                     timeout: Duration::from_secs(60),
                     what: "histories of <= 3 registrations of one infix operator over 6 (precedence, associativity) pairs, each in a fresh process, with and without the re-registrations being made by another (joined) thread; after every step every tree of <= 3 infix nodes over {xop, *, +, in} (minimal and full parentheses) must parse to itself under the table of that moment".into(),
+                },
+                Stage {
+                    name: "dual-role".into(),
+                    len: 1,
+                    chunk: 1,
+                    timeout: Duration::from_secs(600),
+                    what: "fresh process: `%` also registered as postfix, `*` as prefix, `!` and `++` as infix; every sequence of <= 6 tokens over {1, x, %, *, !, ++, (, ), +, -} that the reference parser accepts under that table must give the reference AST (spaced and glued)".into(),
                 },
                 Stage {
                     name: "deep".into(),
@@ -243,6 +271,24 @@ impl Prop for C02 {
             return;
         }
         if stage == 3 {
+            out.at(0);
+            let ops = install_dual_role();
+            let seqs = TokenSeqs { alphabet: DUAL_TOKENS.to_vec(), max_len: 6 };
+            for i in 0..seqs.len() {
+                for text in [seqs.spaced(i), seqs.glued(i)] {
+                    if let Ok(want) = parse::parse(&text, &ops) {
+                        compare(&text, &want, &ops, "dual-role", out);
+                        if count_nodes(&want) >= 1 {
+                            out.nontrivial.insert(hash64(&format!("dual{:?}", want)));
+                        }
+                    }
+                }
+            }
+            out.count("states", seqs.len());
+            out.count("transitions", seqs.len());
+            return;
+        }
+        if stage == 4 {
             let cases = super::c03::deep_cases();
             for i in a..b {
                 out.at(i);
@@ -302,6 +348,9 @@ impl Prop for C02 {
             return show(&parse::print(&programs(tier)[i as usize], &ops, Parens::Minimal));
         }
         if stage == 3 {
+            return "dual-role operator table".to_string();
+        }
+        if stage == 4 {
             return super::c03::deep_cases()[i as usize].key.clone();
         }
         if stage == 2 {
